@@ -51,7 +51,8 @@ partial def keyOf : ATy → String
   | .list t => "List<" ++ keyOf t ++ ">"
   | .pair a b => "Pair<" ++ keyOf a ++ "," ++ keyOf b ++ ">"
   | .option t => "Option<" ++ keyOf t ++ ">"
-  | .tuple ts => "Tuple<" ++ ",".intercalate (ts.toList.map keyOf) ++ ">"
+  -- `Reference::from_type` wraps the element list twice (`Tuple<{}>` around `from_types`' `<…>`)
+  | .tuple ts => "Tuple<<" ++ ",".intercalate (ts.toList.map keyOf) ++ ">>"
   | .adt n args =>
     "test_module/T" ++ toString n ++
       (if args.toList.isEmpty then "" else "<" ++ ",".intercalate (args.toList.map keyOf) ++ ">")
